@@ -74,7 +74,8 @@ theorem T_C16_mod (v : Variant) (attr : Toks) (m : ModItemIn) (out : Out)
   simp only [expand] at h
   split at h
   · simp at h
-  · obtain ⟨items, a, fns, tg, depMode, implBlock, h0, h1, h2, _, h4, rfl⟩ := expandMod_ok h
+  · obtain ⟨items, a, fns0, fns, tg, depMode, implBlock, h0, h1, h2, hfns, _, h4, rfl⟩ := expandMod_ok h
+    subst hfns
     have him := genImplBlock_ok h4
     have hids : ∀ f ∈ items.filterMap BodyItem.fn?, identOk f.sig.ident = true := by
       have hid' : (items.filterMap BodyItem.fn?).all (fun f => identOk f.sig.ident) = true := by
@@ -85,15 +86,17 @@ theorem T_C16_mod (v : Variant) (attr : Toks) (m : ModItemIn) (out : Out)
       effectiveOpts, h1, optsNoDeps, Item.mode]
     rw [him]
     simp only [genTraitDef, zipAll_map_right, GenMember.sig?, Bool.and_eq_true]
-    have key : ∀ (g : TraitFn → Sig), (∀ tf, (g tf).inputs = tf.sig.inputs) →
+    have key : ∀ (g : TraitFn → Sig), (∀ tf, (g tf).inputs = tf.sig.inputs) → (∀ tf a, g (tf.withCfgOf a) = g tf) →
         zipAll (fun (src : FnItem) tf =>
           paramNamesOk src.sig.ident (typedArgs (src.sig.userParams (v.apply a.opts).noDepsValue))
-            { g tf with inputs := (typedArgs (g tf).inputs).drop 0 } []) (items.filterMap BodyItem.fn?) fns = true := by
-      intro g hg
+            { g tf with inputs := (typedArgs (g tf).inputs).drop 0 } []) (items.filterMap BodyItem.fn?)
+          (attachCfg (bodyFnAttrs items) fns0) = true := by
+      intro g hg hgc
+      rw [zipAll_attachCfg _ (by intro x tf a; simp only [hgc])]
       have := analyzeFns_zip .selfRef (v.apply a.opts)
         (fun s tf => paramNamesOk s.ident (typedArgs (s.userParams (v.apply a.opts).noDepsValue))
             { g tf with inputs := (typedArgs (g tf).inputs).drop 0 } [])
-        ((items.filterMap BodyItem.fn?).map (·.sig)) {} tg fns
+        ((items.filterMap BodyItem.fn?).map (·.sig)) {} tg fns0
         (by
           intro s hs tg0 tf tg1 han
           obtain ⟨f, hf, rfl⟩ := List.mem_map.mp hs
@@ -103,9 +106,9 @@ theorem T_C16_mod (v : Variant) (attr : Toks) (m : ModItemIn) (out : Out)
       exact this
     constructor
     · have := key (fun tf => makeTraitFnSig tf.sig m.attrs (v.apply a.opts))
-        (by intro tf; simp [makeTraitFnSig]; split <;> rfl)
+        (by intro tf; simp [makeTraitFnSig]; split <;> rfl) (fun _ _ => rfl)
       simpa using this
-    · have := key (fun tf => tf.sig) (fun _ => rfl)
+    · have := key (fun tf => tf.sig) (fun _ => rfl) (fun _ _ => rfl)
       simpa using this
 
 /-- trait mode: the delegating method of `Impl<T>` for one trait method -/
@@ -213,7 +216,8 @@ theorem implMode_namesOk (f : String) (hid : identOk f = true) (lt : Option Stri
 theorem T_C16_impl (v : Variant) (attr : Toks) (m : ImplItemIn) (out : Out)
     (hid : (Item.impl m).identsOk = true) (h : expand v attr (.impl m) = .ok out) :
     P_C16 v attr (.impl m) out.view = true := by
-  obtain ⟨items, a, fns, tg, depMode, implBlock, h0, h1, h2, _, h4, rfl⟩ := expandImpl_ok h
+  obtain ⟨items, a, fns0, fns, tg, depMode, implBlock, h0, h1, h2, hfns, _, h4, rfl⟩ := expandImpl_ok h
+  subst hfns
   have him := genImplBlock_ok h4
   have hnd : (v.apply a.opts).noDepsValue = false := by
     rw [apply_noDepsValue]; simp [Opts.noDepsValue, implAttr_noDeps h1]
@@ -228,10 +232,11 @@ theorem T_C16_impl (v : Variant) (attr : Toks) (m : ImplItemIn) (out : Out)
     List.getLast?_singleton, Item.sourceFns, h0, effectiveOpts, h1, optsNoDeps, Item.mode, hnd, Bool.true_and]
   rw [him]
   simp only [zipAll_map_right, GenMember.sig?]
-  have := analyzeFns_zip (if a.dynRef then .dynamicImpl else .staticImpl) (v.apply a.opts)
+  have := analyzeFns_zip_cfg (if a.dynRef then .dynamicImpl else .staticImpl) (v.apply a.opts)
     (fun s tf => paramNamesOk s.ident (typedArgs (s.userParams false))
         { tf.sig with inputs := (typedArgs tf.sig.inputs).drop 1 } ["__impl"])
-    ((items.filterMap BodyItem.fn?).map (·.sig)) {} tg fns
+    (fun _ _ _ => rfl)
+    ((items.filterMap BodyItem.fn?).map (·.sig)) {} tg fns0 (bodyFnAttrs items)
     (by
       intro s hs tg0 tf tg1 han
       obtain ⟨f, hf, rfl⟩ := List.mem_map.mp hs
